@@ -31,7 +31,9 @@ CONSTANTS Paths,      \* generator: path universe
           Attrs,      \* generator: attribute tokens
           MaxLinks,   \* generator: hard-link ids it may create
           MaxOps,     \* generator: history length
-          Mix         \* generator: set of operation kinds / options it uses
+          Mix,        \* generator: set of operation kinds / options it uses
+          Dev         \* generator: FALSE = follow the strict outcomes; TRUE = follow what the unchanged code
+                      \* does (every applicable known-finding deviation, the chunk ids the code schedules)
 VARIABLES tree, links, gc, due, taint, nextLid, last, hist
 vars == <<tree, links, gc, due, taint, nextLid, last, hist>>
 
@@ -178,8 +180,9 @@ GcFlags(g, t2, l2, req, tn, hl, hlFlag) ==
   \cup (IF GcOver(g, t2, l2, tn) \ hl # {} THEN {D7} ELSE {})
   \cup (IF GcUnder(g, t2, l2, req, tn) # {} THEN {D6} ELSE {})
 
-OthersOf(p) == IF IsFile(tree, p) THEN Files(tree) \ Ident(tree, p) ELSE Files(tree)
+OthersOf(p) == IF IsFile(tree, p) THEN Files(tree) \ Ident(tree, p) ELSE Files(tree)   \* for a write-back through p
 TaintBy(p, c) == taint \cup (c \cap (RefOf(tree, links, OthersOf(p)) \cup gc))
+TaintByFresh(p, c) == taint \cup (c \cap (RefOf(tree, links, Files(tree) \ {p}) \cup gc))   \* for a fresh plain entry at p
 SharedWithNames(p) ==   \* chunks of p's hard-link record while other names of it remain
   IF IsFile(tree, p) /\ HasRec(tree, links, p) /\ Names(tree, tree[p].link) # {p}
   THEN links[tree[p].link].chunks ELSE {}
@@ -190,50 +193,62 @@ LinkChunksIn(S) == UNION {links[L].chunks : L \in {tree[q].link : q \in S} \cap 
 Init == /\ tree = <<>> /\ links = <<>> /\ gc = {} /\ due = {} /\ taint = {} /\ nextLid = 1
         /\ last = [op |-> [ev |-> "none"], res |-> "none"] /\ hist = <<>>
 
-(* the strict outcome the generator follows: the complete effect if the statements admit one *)
-Best(outs) == {o \in outs : /\ o.F = {}
-                            /\ \/ o.res = "ok"
-                               \/ /\ ~\E o2 \in outs : o2.F = {} /\ o2.res = "ok"
-                                  /\ o.t = tree /\ o.l = links}
-Apply(op, o, req, nl) ==
+(* the outcome the generator follows: the complete effect if the statements admit one; with Dev the
+   outcome that relies on every applicable deviation (what the unchanged code does) *)
+Strictest(outs) == {o \in outs : /\ o.F = {}
+                                 /\ \/ o.res = "ok"
+                                    \/ /\ ~\E o2 \in outs : o2.F = {} /\ o2.res = "ok"
+                                       /\ o.t = tree /\ o.l = links}
+Best(outs) == IF Dev /\ (\E o \in outs : o.res = "ok")
+              THEN {o \in outs : o.res = "ok" /\ \A o2 \in outs : o2.res = "ok" => o2.F \subseteq o.F}
+              ELSE Strictest(outs)
+(* codeG: the chunk ids the unchanged code schedules for this operation (used with Dev only) *)
+Apply(op, o, req, nl, codeG) ==
   LET dropped == Ref(tree, links) \ Ref(o.t, o.l) IN
   /\ tree' = o.t /\ links' = o.l
-  /\ gc' = gc \cup (IF req THEN dropped ELSE {})
+  /\ gc' = gc \cup (IF Dev THEN (IF o.res = "ok" THEN codeG ELSE {})
+                    ELSE IF req \/ op.ev = "rename" THEN dropped ELSE {})   \* (a rename may collect what it overwrote)
   /\ due' = due \cup (IF req THEN dropped ELSE {})
   /\ taint' = taint /\ nextLid' = nl
   /\ last' = [op |-> op, res |-> o.res]
   /\ hist' = Append(hist, op)
 Owned(p, c) == c \cap (RefOf(tree, links, OthersOf(p)) \cup gc) = {}   \* a chunk belongs to one file
+OwnedFresh(p, c) == c \cap (RefOf(tree, links, Files(tree) \ {p}) \cup gc) = {}
 Kinds == IF "mkdir" \in Mix THEN {"d", "f"} ELSE {"f"}
 Bools(opt) == IF opt \in Mix THEN {FALSE, TRUE} ELSE {FALSE}
 Entries == (IF "d" \in Kinds THEN {[kind |-> "d", chunks |-> {}, attr |-> 0]} ELSE {})
            \cup {[kind |-> "f", chunks |-> c, attr |-> a] : c \in SUBSET Chunks, a \in Attrs}
 
 GenCreate == "create" \in Mix /\ \E p \in Paths, e \in Entries, x \in Bools("oexcl") :
-               /\ Owned(p, e.chunks)
+               /\ OwnedFresh(p, e.chunks)
                /\ \E o \in Best(CreateOuts(p, e)) :
                     Apply([ev |-> "create", p |-> p, kind |-> e.kind, chunks |-> e.chunks, attr |-> e.attr, oexcl |-> x],
-                          IF x /\ p \in DOMAIN tree THEN Same("err") ELSE o, TRUE, nextLid)
+                          IF x /\ p \in DOMAIN tree THEN Same("err") ELSE o, TRUE, nextLid, ShownBy(p) \ e.chunks)
 GenUpdate == "update" \in Mix /\ \E p \in Paths, e \in Entries :
-               /\ Owned(p, e.chunks)
+               /\ OwnedFresh(p, e.chunks)
                /\ \E o \in Best(UpdateOuts(p, e)) :
-                    Apply([ev |-> "update", p |-> p, kind |-> e.kind, chunks |-> e.chunks, attr |-> e.attr], o, TRUE, nextLid)
+                    Apply([ev |-> "update", p |-> p, kind |-> e.kind, chunks |-> e.chunks, attr |-> e.attr], o, TRUE, nextLid,
+                          ShownBy(p) \ e.chunks)
 GenWrite == "write" \in Mix /\ \E p \in Paths, c \in SUBSET Chunks, a \in Attrs, via \in {"create", "update"} :
                /\ Owned(p, c) /\ IsFile(tree, p)
                /\ \E o \in Best(WriteOuts(p, c, a)) :
-                    Apply([ev |-> "write", p |-> p, chunks |-> c, attr |-> a, via |-> via], o, TRUE, nextLid)
+                    Apply([ev |-> "write", p |-> p, chunks |-> c, attr |-> a, via |-> via], o, TRUE, nextLid, ShownBy(p) \ c)
 GenLink == "link" \in Mix /\ \E o \in Paths, n \in Paths :
                /\ IsFile(tree, o) /\ n \notin DOMAIN tree /\ ~FileAbove(tree, n)
                /\ (tree[o].link = 0 => nextLid <= MaxLinks)
                /\ \E x \in Best(LinkOuts(o, n, nextLid)) :
-                    Apply([ev |-> "link", o |-> o, n |-> n], x, FALSE, IF tree[o].link = 0 THEN nextLid + 1 ELSE nextLid)
+                    Apply([ev |-> "link", o |-> o, n |-> n], x, FALSE, IF tree[o].link = 0 THEN nextLid + 1 ELSE nextLid, {})
 GenDelete == "delete" \in Mix /\ \E p \in Paths, rec \in BOOLEAN, data \in (IF "nodata" \in Mix THEN BOOLEAN ELSE {TRUE}) :
                \E o \in Best(DeleteOuts(p, rec, data)) :
-                    Apply([ev |-> "delete", p |-> p, rec |-> rec, data |-> data, ign |-> FALSE], o, data, nextLid)
+                    Apply([ev |-> "delete", p |-> p, rec |-> rec, data |-> data, ign |-> FALSE], o, data, nextLid,
+                          IF ~data \/ p \notin DOMAIN tree THEN {}
+                          ELSE IF IsFile(tree, p) THEN ShownBy(p)
+                          ELSE RefOf(tree, links, {q \in Under(tree, p) : tree[q].link = 0}))
 GenRename == "rename" \in Mix /\ \E o \in Paths, n \in Paths :
                /\ ~IsMerge(o, n)
                /\ \E x \in Best(RenameOuts(o, n)) :
-                    Apply([ev |-> "rename", o |-> o, n |-> n], x, TRUE, nextLid)
+                    Apply([ev |-> "rename", o |-> o, n |-> n], x, FALSE, nextLid,
+                          IF IsFile(tree, n) /\ IsFile(tree, o) /\ o # n THEN ShownBy(n) \ ShownBy(o) ELSE {})
 GenNext == Len(hist) < MaxOps /\ (GenCreate \/ GenUpdate \/ GenWrite \/ GenLink \/ GenDelete \/ GenRename)
 Spec == Init /\ [][GenNext]_vars
 
@@ -286,5 +301,6 @@ WriteReachesAllNames ==
 Emit == Len(hist) < MaxOps \/ PrintT(<<"W", ToJson(hist)>>)
 View == <<tree, links, gc, last>>
 ViewMC == <<tree, links, gc, due, last>>
+ViewS == <<tree, links, gc, due>>
 EmitW == hist = <<>> \/ PrintT(<<"W", ToJson(hist)>>)
 =============================================================================
